@@ -16,5 +16,6 @@ func TestMain(m *testing.M) {
 		"C09mcrew": C09mcrew,
 		"C08mcrew": C08mcrew,
 		"C12mcrew": C12mcrew,
+		"C07mcrew": C07mcrew,
 	})
 }
